@@ -61,6 +61,11 @@ def gen_treeinfo(rng, R=None):
     if rng.random() < 0.5:
         for p in rng.sample(["images/boot.iso", "repodata/repomd.xml", "images/pxeboot/vmlinuz", "LiveOS/squashfs.img"], rng.randint(1, 3)):
             d["checksums"][p] = [rng.choice(["sha256", "md5", "sha1"]), rstr(rng, rng.choice(["0123456789abcdef", "0123456789abcdef", "0123456789ABCDEF", "0123456789abcdefABCDEF"]), 32, 32)]
+            if rng.random() < 0.25:
+                # any algorithm name is allowed; the written "type:value" text may happen to be 32, 40 or 64 characters long
+                alg = rng.choice(["blake2s", "blake2b", "sha224", "sha3_256", "md5", "crc32"])
+                L = rng.choice([32, 40, 64]) - len(alg) - 1
+                d["checksums"][p] = [alg, rstr(rng, "0123456789abcdef", L, L)]
     return d
 
 
